@@ -155,7 +155,10 @@ type c10world struct {
 // withShare: copy the fixture key shares into the relayer's private temp dir (otherwise the stores are empty).
 func newC10World(n int, withShare bool) *c10world {
 	ids := fixturePeers()
-	dir, err := os.MkdirTemp("", "verif-c10-")
+	// private scratch directory of this world (key-share files), under the framework's work/ directory
+	base := verifRoot() + "/work"
+	_ = os.MkdirAll(base, 0o755)
+	dir, err := os.MkdirTemp(base, fmt.Sprintf("tmp-c10-%d-", os.Getpid()))
 	if err != nil {
 		panic(err)
 	}
@@ -361,14 +364,14 @@ func c10cellRun(a []string) string {
 		} else if ran {
 			// Party.Start / the FROST handler must have handed over its first-round messages before the session is
 			// failed (a cancellation racing with that hand-over is a separate, recorded finding): wait for the first
-			// protocol broadcast and then for 400 ms without another one
+			// protocol broadcast and then for 600 ms without another one
 			mt := c10msgType(kind)
 			first := c9wait
 			if kind == "ekeygen" {
 				first = 150 * time.Second // safe-prime generation inside Party.Start
 			}
 			ran = waitUntil(first, func() bool { return nd.ledger.bcasts(sid, mt) > 0 })
-			for last, since := nd.ledger.bcasts(sid, mt), time.Now(); time.Since(since) < 400*time.Millisecond; {
+			for last, since := nd.ledger.bcasts(sid, mt), time.Now(); time.Since(since) < 600*time.Millisecond; {
 				time.Sleep(5 * time.Millisecond)
 				if n := nd.ledger.bcasts(sid, mt); n != last {
 					last, since = n, time.Now()
@@ -581,7 +584,7 @@ func c9rerunRun(a []string) string {
 		okRun := waitUntil(c9wait, func() bool { s1, _, _ := nd.ledger.counts(sid); return s1 > s0 })
 		if okRun && strings.HasPrefix(kind, "e") {
 			okRun = waitUntil(c9wait, func() bool { return nd.ledger.bcasts(sid, mt) > b0 })
-			for last, since := nd.ledger.bcasts(sid, mt), time.Now(); time.Since(since) < 400*time.Millisecond; {
+			for last, since := nd.ledger.bcasts(sid, mt), time.Now(); time.Since(since) < 600*time.Millisecond; {
 				time.Sleep(5 * time.Millisecond)
 				if k := nd.ledger.bcasts(sid, mt); k != last {
 					last, since = k, time.Now()
@@ -614,6 +617,8 @@ func init() {
 var c10kinds = []string{"ekeygen", "fkeygen", "eresharing", "fresharing", "esigning", "fsigning"}
 
 func genC10(g *G) {
+	// protocol runs with safe-prime generation or FROST's start-up pause can exceed the driver's default 20 s op limit
+	opTimeout = 5 * time.Minute
 	fulls := []string{"esigning", "fsigning", "fkeygen", "eresharing", "fresharing"}
 	if g.Thorough() {
 		fulls = c10kinds
@@ -627,8 +632,8 @@ func genC10(g *G) {
 	}
 	for _, k := range c10kinds {
 		for _, oc := range []string{"refused", "silent", "gto", "cancel", "rejected", "failed", "noshare"} {
-			if oc == "failed" && k == "ekeygen" && !g.Thorough() {
-				continue // safe-prime generation inside Party.Start (tens of seconds): thorough tier only
+			if oc == "failed" && k == "ekeygen" {
+				continue // safe-prime generation inside Party.Start (tens of seconds): thorough tier only, emitted last
 			}
 			if oc == "noshare" && !strings.HasSuffix(k, "signing") {
 				continue // only the signing constructors need an existing share
@@ -640,5 +645,8 @@ func genC10(g *G) {
 	g.Emit("stuck", "esigning")
 	for _, k := range fulls {
 		g.Emit("full", k)
+	}
+	if g.Thorough() {
+		g.Emit("cell", "ekeygen", "failed")
 	}
 }
